@@ -28,4 +28,33 @@ PROPS = {
     },
 }
 
+PROPS["C07"] = {
+    "contracts": ["contracts/C07_C08_loops.py"],
+    "level": "proof",
+    "assumptions": ["BioAgent.express is havocked: arbitrary ActionProtein with an arbitrary action_type string, or an arbitrary Exception",
+                    "prompts are encodable (no lone surrogates): str.encode() in the hash/cache-key computation is outside the statement",
+                    "A-hash: md5[:16] cache keys of distinct prompts do not collide (otherwise a colliding prompt receives another request's cached verdict)",
+                    "_cache_result eviction (min over a symbolic dict) is modelled as removing an arbitrary entry; its 'stored' clause is stated for caches below the size limit",
+                    "on_block/on_permit callbacks do not raise"],
+    "trusted_base": ["hashlib.sha256/md5 as deterministic uninterpreted functions", "dataclass construction"],
+    "level_text": "The gate table G(logic, z, y) is transcribed from the statement and every exit of _apply_gate_logic and run is proved against it for all "
+                  "six logics and ALL strings for both verdicts (not only the seven named); agent exceptions, token binding (sha256(prompt)[:16], issuer) "
+                  "and the cache path (returned object is the stored one, verdict fields untouched) are postconditions proved on every path.",
+    "level_note": "Agents are havocked collaborators; hash functions uninterpreted; cache-key collision freeness assumed; engine and z3 trusted.",
+}
+PROPS["C08"] = {
+    "contracts": ["contracts/C07_C08_loops.py"],
+    "level": "proof",
+    "assumptions": ["failure_threshold >= 1 and recovery_timeout >= 0 (configuration)",
+                    "BioAgent.express is havocked (arbitrary result or Exception); outcome classification is stated over the gate result's fields, "
+                    "which run obtains from _apply_gate_logic's proved contract",
+                    "the 'failures' of the statement are what run classifies as failure: executor FAILURE results and agent exceptions"],
+    "trusted_base": ["threading.Lock semantics", "ghost clock for datetime.now()"],
+    "level_text": "Breaker invariants (CLOSED iff count below threshold; OPEN has a failure time) are proved inductive over __init__, run, reset and the "
+                  "three helpers for every threshold >= 1 and every real clock value; isolation while OPEN (no agent call, budget and counters untouched), "
+                  "probe admission after the timeout, close-on-success, reopen-on-failure with timeout restart, failure counting and the disabled mode "
+                  "are postconditions of run proved on all paths.",
+    "level_note": "Agents havocked; clock monotone; engine and z3 trusted.",
+}
+
 NOT_APPLICABLE = {}
